@@ -76,9 +76,10 @@ class LockEngine:
             gs = [(self.T.classify(p), m) for (m, p, ref) in L.get("guards", []) if not ref]
             if gs:
                 owned[l] = gs
-        self.owned[body.id] = owned
+        hk = getattr(body, "hkey", body.id)
+        self.owned[hk] = owned
         if not owned:
-            self.term_held[body.id] = {}
+            self.term_held[hk] = {}
             return
         init = frozenset(l for l in range(1, body.arg_count + 1) if l in owned)
 
@@ -126,13 +127,14 @@ class LockEngine:
 
         from program import forward
         forward(body, init, transfer, lambda a, b: a | b)
-        self.term_held[body.id] = held_at
+        self.term_held[hk] = held_at
 
     def held_items(self, body, b):
         """[(cls, mode, local)] held at the terminator of block b."""
         out = []
-        owned = self.owned[body.id]
-        for l in sorted(self.term_held[body.id].get(b, ())):
+        hk = getattr(body, "hkey", body.id)
+        owned = self.owned[hk]
+        for l in sorted(self.term_held[hk].get(b, ())):
             for cls, m in owned[l]:
                 out.append((cls, m, l))
         return out
